@@ -30,3 +30,40 @@ package store
 //@   nopanic
 //@   modifies $deletes
 //@   ensures [counted] $deletes == old($deletes) + 1
+
+// ---- the redis store: all three operations address the same key, prefix + cache key ------------
+//@ immutable redisStore: client, timeout, prefix
+//@ func (rs *redisStore) getKey(key []byte) (k string)
+//@   requires [recv] rs != nil
+//@   nopanic
+//@   ensures [prefixed] k == rs.prefix + b2s(contents(key))
+//@ func (rs *redisStore) Get(key []byte) (data []byte, err error)
+//@   requires [recv] rs != nil && rs.client != nil
+//@   nopanic
+//@   precall github.com/go-redis/redis/v8.Cmdable.Get#0 [same-key] $arg1 == rs.prefix + b2s(contents(key))
+//@ func (rs *redisStore) Set(key []byte, data []byte, ttl time.Duration) (err error)
+//@   requires [recv] rs != nil && rs.client != nil
+//@   nopanic
+//@   precall github.com/go-redis/redis/v8.Cmdable.Set#0 [same-key] $arg1 == rs.prefix + b2s(contents(key)) && $arg3 == ttl && typeis($arg2, "[]byte") && unbox($arg2, "[]byte") == data
+//@ func (rs *redisStore) Delete(key []byte) (err error)
+//@   requires [recv] rs != nil && rs.client != nil
+//@   nopanic
+//@   precall github.com/go-redis/redis/v8.Cmdable.Del#0 [same-key] len($arg1) == 1 && $arg1[0] == rs.prefix + b2s(contents(key))
+
+// ---- the badger store: the three operations address the key they are given, Set stores the data and TTL given
+//@ immutable badgerStore: db
+//@ func (bs *badgerStore) Get$1(txn *badger.Txn) (err error)
+//@   requires [txn] txn != nil
+//@   nopanic
+//@   modifies heap
+//@   precall github.com/dgraph-io/badger/v3.Txn.Get#0 [same-key] $arg0 == key
+//@ func (bs *badgerStore) Set$1(txn *badger.Txn) (err error)
+//@   requires [txn] txn != nil
+//@   nopanic
+//@   precall github.com/dgraph-io/badger/v3.NewEntry#0 [same-key-and-data] $arg0 == key && $arg1 == data
+//@   precall github.com/dgraph-io/badger/v3.Entry.WithTTL#0 [same-ttl] $arg0 == ttl
+//@   precall github.com/dgraph-io/badger/v3.Txn.SetEntry#0 [entry] $arg0 != nil && $arg0.Key == key && $arg0.Value == data
+//@ func (bs *badgerStore) Delete$1(txn *badger.Txn) (err error)
+//@   requires [txn] txn != nil
+//@   nopanic
+//@   precall github.com/dgraph-io/badger/v3.Txn.Delete#0 [same-key] $arg0 == key
